@@ -7,8 +7,8 @@
   `apply_delta`.
 
   Rust side (crates/pack/src/lib.rs): `get_delta_header_size`, `apply_delta` with `usize`
-  (64-bit) arithmetic, debug-profile shift-overflow panics and the up-front allocation of
-  `dest_size` bytes as explicit outcomes.
+  (64-bit) arithmetic as coded after the two `fix:` commits (oversized size headers are rejected,
+  the output buffer grows with the data, opcodes overflowing the declared size are errors).
 
   Arithmetic is written with `/`, `%`, `*` instead of `>>`, `&`, `|` where the two coincide;
   the correspondence check ties these definitions to the real code byte-for-byte.
@@ -170,65 +170,55 @@ def declaredDest (delta : Bytes) : Option Nat :=
 
 /-! ## Rust `apply_delta` (crates/pack/src/lib.rs) -/
 
-/-- Observable outcomes of the Rust decoder. `panic`: a Rust panic surfaces in Python as
-`pyo3_runtime.PanicException` (a `BaseException`).  `ok`/`err` carry the amount the decoder
-asked the allocator for before looking at any opcode (`vec![0; dest_size]`). -/
-inductive RsOutcome where
-  | ok (alloc : Nat) (out : Bytes)
-  | err (alloc : Nat)             -- ApplyDeltaError
-  | panic                         -- shift overflow (debug profile)
-  deriving Repr, DecidableEq
+def usizeMod : Nat := 2 ^ Gen.rsUsizeBits
 
-def usizeMod : Nat := 2 ^ 64
-
-/-- Rust `get_delta_header_size`: `size |= ((cmd & !0x80) as usize) << i` on a 64-bit `usize`.
-`debug = true`: `<<` by ≥ 64 panics; `debug = false` (release): the shift amount wraps mod 64.
-Bits shifted beyond bit 63 are lost in both profiles.  `none` = truncated, `some none` = panic. -/
-def rsDecodeSizeAux (debug : Bool) (shift acc : Nat) : Bytes → Option (Option (Nat × Bytes))
+/-- Rust `get_delta_header_size` on a 64-bit `usize`: a non-zero 7-bit group that would be shifted
+(partly) out of the word is rejected (`"delta size header too large"`); zero groups are accepted at
+any position.  `none` = `ApplyDeltaError` (truncated or too large). -/
+def rsDecodeSizeAux (shift acc : Nat) : Bytes → Option (Nat × Bytes)
   | [] => none
   | b :: rest =>
-    if debug ∧ shift ≥ 64 then some none else
-    let acc' := acc ||| (((b.toNat % 128) <<< (shift % 64)) % usizeMod)
-    if b.toNat < 128 then some (some (acc', rest)) else rsDecodeSizeAux debug (shift + 7) acc' rest
+    let bits := b.toNat % 128
+    if bits ≠ 0 ∧ (shift ≥ Gen.rsUsizeBits ∨ bits * 2 ^ shift ≥ usizeMod) then none else
+    let acc' := acc + bits * 2 ^ shift
+    if b.toNat < 128 then some (acc', rest) else rsDecodeSizeAux (shift + 7) acc' rest
 
-/-- Rust opcode loop; `outindex = out.length`. -/
+/-- Rust opcode loop; `outindex = out.length`.  `none` = `ApplyDeltaError`. -/
 def rsApplyLoop (src : Bytes) (destSize : Nat) : Nat → Bytes → Bytes → Option Bytes
   | _, [], out => if out.length = destSize then some out else none
   | 0, _ :: _, _ => none
   | fuel + 1, cmd :: rest, out =>
     if cmd.toNat ≥ 128 then
-      match readLE (bitsOf 4 cmd.toNat) rest with
+      match readLE (bitsOf Gen.rsApplyOffsetBytes cmd.toNat) rest with
       | none => none
       | some (off, r1) =>
-        match readLE (bitsOf 3 (cmd.toNat / 16)) r1 with
+        match readLE (bitsOf Gen.rsApplySizeBytes (cmd.toNat / 16)) r1 with
         | none => none
         | some (sz0, r2) =>
-          let sz := if sz0 = 0 then 0x10000 else sz0
-          if sz > src.length ∨ off > src.length ∨ off > src.length - sz ∨ sz > destSize
-              ∨ out.length > destSize - sz then
+          let sz := if sz0 = 0 then Gen.rsCopyZeroSize else sz0
+          if sz > src.length ∨ off > src.length ∨ off > src.length - sz ∨ sz > destSize then
+            -- `break`
             if r2.isEmpty then (if out.length = destSize then some out else none) else none
+          else if out.length > destSize - sz then none
           else rsApplyLoop src destSize fuel r2 (out ++ (src.drop off).take sz)
     else if cmd.toNat ≠ 0 then
-      if cmd.toNat > destSize then
-        -- `break`
-        if rest.isEmpty then (if out.length = destSize then some out else none) else none
+      if cmd.toNat > destSize then none
       else if out.length + cmd.toNat > destSize then none
       else if cmd.toNat > rest.length then none
       else rsApplyLoop src destSize fuel (rest.drop cmd.toNat) (out ++ rest.take cmd.toNat)
     else none
 
-def applyDeltaRs (debug : Bool) (src delta : Bytes) : RsOutcome :=
-  match rsDecodeSizeAux debug 0 0 delta with
-  | none => .err 0
-  | some none => .panic
-  | some (some (srcSize, d1)) =>
-    if srcSize ≠ src.length then .err 0 else
-    match rsDecodeSizeAux debug 0 0 d1 with
-    | none => .err 0
-    | some none => .panic
-    | some (some (destSize, d2)) =>
+/-- Rust `apply_delta`: the source size is checked before the destination size is parsed. -/
+def applyDeltaRs (src delta : Bytes) : Except Err Bytes :=
+  match rsDecodeSizeAux 0 0 delta with
+  | none => .error .delta
+  | some (srcSize, d1) =>
+    if srcSize ≠ src.length then .error .delta else
+    match rsDecodeSizeAux 0 0 d1 with
+    | none => .error .delta
+    | some (destSize, d2) =>
       match rsApplyLoop src destSize d2.length d2 [] with
-      | some out => .ok destSize out
-      | none => .err destSize
+      | some out => .ok out
+      | none => .error .delta
 
 end Dulwich.Delta
